@@ -269,6 +269,16 @@ fn multi_fault_documents() -> Vec<(&'static str, String)> {
             "merge-conflicts-on-two-tracks",
             "package t:doc;\nimport x as \"a:b/i@0.2.5\": interface { f: func(x: u32); };\nimport y as \"a:b/i@1.0.5\": interface { f: func(x: u32); };\nlet a = new t:v100 { ... };\nlet b = new t:v120 { ... };\nlet c = new t:v020 { ... };\nlet d = new t:v021 { ... };\n".to_string(),
         ),
+        // several named nodes that the encoder realises as ONE item (imports of one interface): the
+        // name section must not depend on which of them a hash map yields first
+        (
+            "three-imports-of-one-interface",
+            "package t:doc;\ninterface types { type t = u32; f: func(); }\nimport a: types;\nimport b: types;\nimport c: types;\nlet x = a.f;\nexport x;\n".to_string(),
+        ),
+        (
+            "two-imports-of-compatible-versions",
+            "package t:doc;\nimport p as \"a:b/i@0.2.5\": interface { f: func(); };\nimport q as \"a:b/i@0.2.6\": interface { f: func(); };\nlet a = new t:v020 { ... };\n".to_string(),
+        ),
         ("implicit-imports-many", "package t:doc;\nlet x = new f:two { ... };\nlet y = new f:c { ... };\nlet z = new f:d { ... };\nexport x.run as r1;\nexport y.run as r2;\nexport z.run as r3;\n".to_string()),
     ]
 }
